@@ -207,17 +207,47 @@ def name_structs(structs, prefix="S"):
     return structs
 
 
-def build_machine_set(wsname, structs, profile, enum_adapters_by_shard=None, enums_extra=None, extra_enum_specs=None):
-    """name, shard, generate, build. Returns (ws, build_ok, build_seconds, diagnostics)"""
-    shards = shard(structs)
-    srcs = []
-    for i, sh in enumerate(shards):
-        srcs.append(rustgen.shard_source(sh))
-    spec = {"machines": [rustgen.spec_struct(s) for s in structs], "enums": extra_enum_specs or []}
-    cross_check(structs, spec)
-    ws = workspace(wsname, srcs, spec)
-    ok, dt, diag = cargo_build(ws, profile)
-    return ws, ok, dt, diag
+def build_machine_set(wsname, structs, profile, enum_adapters_by_shard=None, enums_extra=None, extra_enum_specs=None, dropped=None):
+    """name, shard, generate, build. Returns (ws, build_ok, build_seconds, diagnostics).
+    If `dropped` is a list, structs whose generated code rustc rejects are removed (appended to `dropped` as
+    (struct, [error lines])) and the rest is rebuilt, so that one rejected declaration does not hide the others."""
+    import re
+    total_dt = 0.0
+    structs = list(structs)
+    for attempt in range(4):
+        shards = shard(structs)
+        srcs, spans = [], []
+        for i, sh in enumerate(shards):
+            sp = []
+            srcs.append(rustgen.shard_source(sh, spans=sp))
+            spans.append(sp)
+        spec = {"machines": [rustgen.spec_struct(s) for s in structs], "enums": extra_enum_specs or []}
+        cross_check(structs, spec)
+        ws = workspace(wsname, srcs, spec)
+        ok, dt, diag = cargo_build(ws, profile)
+        total_dt += dt
+        if ok or dropped is None:
+            return ws, ok, total_dt, diag
+        # attribute error lines to structs
+        prefix = wsname.replace('-', '_') + "_s"
+        bad = {}
+        for m in re.finditer(r"^(?:\S*/)?(" + re.escape(prefix) + r"(\d+))/src/lib\.rs:(\d+):\d+: (error.*)$", diag, re.M):
+            si, ln, msg = int(m.group(2)), int(m.group(3)), m.group(4)
+            if si >= len(spans):
+                continue
+            for a, b, name in spans[si]:
+                if a <= ln <= b:
+                    bad.setdefault(name, []).append(msg[:300])
+                    break
+        if not bad:
+            return ws, False, total_dt, diag
+        by_name = {s.name: s for s in structs}
+        for name, msgs in bad.items():
+            dropped.append((by_name[name], msgs))
+        structs = [s for s in structs if s.name not in bad]
+        if not structs:
+            return ws, False, total_dt, diag
+    return ws, False, total_dt, diag
 
 
 def build_enum_set(wsname, eds, profile, per_shard=None):
